@@ -9,6 +9,7 @@ mod eng_c17;
 mod eng_c19;
 mod eng_c13;
 mod eng_c15;
+mod eng_c16;
 mod eng_hdr;
 mod eng_c20;
 
@@ -35,6 +36,7 @@ fn main() {
         "C06" => eng_hdr::run_c06(&cfg),
         "C07" => eng_c07::run(&cfg),
         "C08" => eng_c08::run(&cfg),
+        "C16" => eng_c16::run(&cfg),
         "C15" => eng_c15::run(&cfg),
         "C13" => eng_c13::run(&cfg),
         "C20" => eng_c20::run(&cfg),
